@@ -69,8 +69,8 @@ ASSUMPTIONS = [
     "memoize: only soundness is checked (a returned result belongs to a call with equal arguments, where 1 / 1.0 / True "
     "count as equal); hits on repeated equal calls are labelled, not required",
     "plain objects define __eq__ on (type, __dict__) and are importable as checks.c15_to_hashable.PlainA/PlainB; equal "
-    "variants *inside* a plain object (attribute/dict insertion order, array buffer layout) are kept in the equal class "
-    "under their own pickle-fallback buckets",
+    "variants *inside* a plain object (attribute/dict insertion order, array buffer layout) are only labelled, not judged: "
+    "a pickle-based key can only promise 'same construction => same key'",
 ]
 
 MARKER = "__CONVERTED__"
@@ -1287,7 +1287,9 @@ def body_pair(data) -> Outcome:
             if po:
                 bucket = "equal-values-unequal-keys:partially-ordered-keys:" + po.split(":")[1]
             elif "plain-object" in feats and "/in-obj" in target:
-                bucket = "equal-values-unequal-keys:pickle-fallback:" + _fallback_cause(op)
+                # not judged: for the pickle fallback only "same construction => same key" is meaningful
+                out.labels.append("pickle-fallback-variant-differs:" + _fallback_cause(op))
+                return out
             else:
                 bucket = "equal-values-unequal-keys:" + where
             out.fail(bucket, f"a={va!r} b={vb!r} ka={ka!r} kb={kb!r}")
